@@ -2,6 +2,7 @@ package main
 
 import (
 	"go/token"
+	"go/types"
 	"sort"
 	"strings"
 
@@ -252,6 +253,7 @@ func runC13(w *World, r *Report) {
 	}
 	checkDeclaredTreesDoNotConverge(w, r, "R1")
 	c13DiagnosisFreeCopyKeepsEndpoints(w, r)
+	c13URLSplitting(w, r)
 	r.Min("R1", 8)
 	r.Min("R2", 7)
 	r.Min("R3", 8)
@@ -351,4 +353,69 @@ func c13DiagnosisFreeCopyKeepsEndpoints(w *World, r *Report) {
 		brk = append(brk, loopBreaks(h)...)
 	}
 	r.Check(n == 1 && ok && len(brk) == 0, "R4", "diagnosis-free-copy/keeps-every-endpoint", f.Pos(), "every endpoint of the loaded policies is appended to the diagnosis-free copy unconditionally (conditions %v, breaks %v)", why, brk)
+}
+
+// c13URLSplitting: the parts a URL is matched by come from the trimmed URL
+// (any run of '.' and '/' at either end is ignored, for declared patterns and
+// requests alike), and "the wildcard is only allowed at the end" compares
+// POSITIONS (the whole part, host/path flag included), not just the text "*".
+func c13URLSplitting(w *World, r *Report) {
+	if sp := w.Fn(pkgURLTree, "splitURL"); sp == nil {
+		r.Undec("R2", "splitURL", token.NoPos, "function not found")
+	} else {
+		ok := false
+		for _, c := range CallsIn(sp, false, "strings.Split") {
+			if Derives(c.Common().Args[0], func(x ssa.Value) bool {
+				cc, isC := x.(*ssa.Call)
+				return isC && isCallTo(cc, "urltree.trimURL") && cc.Call.Args[0] == ssa.Value(sp.Params[0])
+			}) {
+				ok = true
+			}
+		}
+		own := len(CallsIn(sp, false, "strings.TrimPrefix", "strings.TrimSuffix", "strings.TrimLeft", "strings.TrimRight")) > 0
+		r.Check(ok && !own, "R2", "splitURL/splits-the-trimmed-url", sp.Pos(), "splitURL splits trimURL(url) (and does no trimming of its own)")
+	}
+	if vu := w.Fn(pkgURLTree, "validateURL"); vu == nil {
+		r.Undec("R2", "validateURL", token.NoPos, "function not found")
+	} else {
+		// the error "wildcard only at the end" is returned under: part.Value == "*" and
+		// the POSITION of the part differs from len(parts)-1.  Comparing the part itself
+		// with the last part is not enough: in a.com/*/b/* the middle wildcard equals the
+		// trailing one (found as a genuine defect, see known_findings.json).
+		okPos := false
+		for _, alt := range ReturnAlts(vu, 0) {
+			c, isC := peel(alt.Val).(*ssa.Call)
+			if !isC || !isCallTo(c, "fmt.Errorf") {
+				continue
+			}
+			if s, _ := constString(c.Call.Args[0]); !strings.Contains(s, "wildcard") {
+				continue
+			}
+			for _, cd := range expandConds(alt.Conds) {
+				b, isB := cd.V.(*ssa.BinOp)
+				if !isB {
+					continue
+				}
+				bt, isBasic := b.X.Type().Underlying().(*types.Basic)
+				if !isBasic || bt.Info()&types.IsInteger == 0 {
+					continue
+				}
+				// (the loop bound i < len(parts) is an ordering, not this comparison)
+				differs := b.Op == token.NEQ && cd.Pol || b.Op == token.EQL && !cd.Pol || b.Op == token.LSS && cd.Pol || b.Op == token.GEQ && !cd.Pol
+				lastIdx := func(v ssa.Value) bool {
+					sub, isSub := v.(*ssa.BinOp)
+					if !isSub || sub.Op != token.SUB {
+						return false
+					}
+					one, isOne := constInt(sub.Y)
+					l, isLen := sub.X.(*ssa.Call)
+					return isOne && one == 1 && isLen && isCallTo(l, "builtin.len")
+				}
+				if differs && (lastIdx(b.X) || lastIdx(b.Y)) {
+					okPos = true
+				}
+			}
+		}
+		r.Check(okPos, "R2", "validateURL/wildcard-must-be-the-last-part", vu.Pos(), "a wildcard part is rejected unless its position is len(parts)-1 (position compared, not the text or the part)")
+	}
 }
